@@ -387,7 +387,8 @@ ares_status_t ares_cookie_validate(ares_query_t            *query,
   resp_cookie = ares_dns_cookie_fetch(dnsresp, &resp_cookie_len);
 
   /* Invalid cookie length, drop */
-  if (resp_cookie && (resp_cookie_len < 8 || resp_cookie_len > 40)) {
+  if (resp_cookie && (resp_cookie_len < 8 || resp_cookie_len > 40 ||
+                      (resp_cookie_len > 8 && resp_cookie_len < 16))) {
     return ARES_EBADRESP;
   }
 
